@@ -4,6 +4,7 @@ From PGV Require Import Base.Bytes Base.GoStr Base.GoNum Base.Utf8.
 From PGV Require Import Extracted.SourceConst.
 From PGV Require Import Model.RuleText Model.Value Model.Clause Model.Rules Model.Walk.
 From PGV Require Import Proofs.RuleContract Proofs.WalkProofs Proofs.WalkProofs2.
+From PGV Require Import Spec.WalkAddr Proofs.WalkAddrProofs.
 
 (* into a struct, through any number of pointer levels, under Parent.Field *)
 Theorem C04_enters_struct : forall rec ivk sn field cus tv si fs b,
@@ -52,3 +53,37 @@ Theorem C04_paths_extend : forall c fuel sn v g b, wf_val v = true -> (depth v <
                   Forall (under sn) cs /\ Forall (gunder sn) gs.
 Proof. exact clause_paths_extend. Qed.
 Print Assumptions C04_paths_extend.
+
+(* REACHES EXACTLY.  [resolve] (Spec/WalkAddr.v, structural on the address) enters a field's value only
+   through a built-in required / exist rule on a non-empty value, names what it enters Parent.Field,
+   Parent.Field[i] or Parent.Field[key], and finds no rule instance on unexported fields, time.Time
+   fields, fields without rules for the requested tag, nil pointers and non-struct elements.  A
+   clause is written during the validation of an object graph, at whatever depth, if and only if it
+   is the contribution of a rule instance that some address resolves to (or the one "is not struct"
+   clause of a non-struct top value). *)
+Theorem C04_reaches_exactly : forall c fuel sn v g b b', wf_val v = true -> (depth v < fuel)%nat ->
+  validate c fuel sn v g b = Ok b' ->
+  exists cs, b_cl b' = rev cs ++ b_cl b /\
+    forall cl, In cl cs <-> (In cl (top_clause sn v g) \/ exists a s, resolve c a sn v = Some s /\ In cl (fst (local c s))).
+Proof. exact walk_clause_iff. Qed.
+Print Assumptions C04_reaches_exactly.
+
+(* facts read off the definition of resolve: nothing resolves below an unmarked rule, a zero value,
+   a hidden field; everything resolves below a marked non-empty one *)
+Theorem C04_no_descent_without_mark : forall c vn fv, descends c vn fv = true ->
+  get_fn c (pk_key vn) = FBuiltin /\ (str_eqb (pk_key vn) Required = true \/ str_eqb (pk_key vn) Exist = true) /\ zero_b fv = false.
+Proof.
+  intros c vn fv. unfold descends. destruct (get_fn c (pk_key vn)); try discriminate.
+  destruct (str_eqb (pk_key vn) Required).
+  - intros H. apply negb_true_iff, orb_false_iff in H. destruct H as [_ H]. repeat split; auto.
+  - destruct (str_eqb (pk_key vn) Exist); [|discriminate]. intros H. apply negb_true_iff in H. repeat split; auto.
+Qed.
+Theorem C04_hidden_field_has_no_instances : forall c cus fi,
+  f_time fi || negb (is_exported (f_name fi)) = true -> field_rules c cus fi = [].
+Proof. intros c cus fi H. unfold field_rules. now rewrite H. Qed.
+Theorem C04_nil_and_non_struct_have_no_instances : forall c a sn v,
+  match remove_ptr v with VStruct _ _ => False | _ => True end -> resolve c a sn v = None.
+Proof.
+  intros c a sn v H. destruct a as [|i [|j rest]]; try reflexivity. cbn [resolve].
+  destruct (remove_ptr v); try reflexivity. destruct H.
+Qed.
